@@ -69,7 +69,8 @@ def run(c, chk):
         raw = {}              # entry (or whole array object) -> event index of the raw copy
         last = {}             # (entry, member) -> (index, value)
         for i, e in enumerate(p.events):
-            if e.kind == 'call' and (e.name or '').startswith('llvm.memcpy') and sym.root_of(e.args[0])[0] == 'call' and sym.root_of(e.args[1])[0] == 'p':
+            if e.kind == 'call' and (e.name or '').startswith('llvm.memcpy') and sym.root_of(e.args[0])[0] == 'call' and sym.root_of(e.args[1])[0] == 'p' \
+                    and e.args[0][0] != 'fld':
                 raw[e.args[0]] = i
             elif e.kind == 'store' and e.addr[0] == 'fld' and sym.root_of(e.addr)[0] == 'call':
                 ent = e.addr
@@ -101,6 +102,39 @@ def run(c, chk):
                     verdict.setdefault(m, set()).add('is filled from %s of the source instead of the same member' % srcnm)
                 else:
                     verdict.setdefault(m, set()).add('')
+    # a record built member by member (no raw copy): every member that is not an owned pointer travels verbatim
+    dropped = set()
+    allm = all_members(mod, '%struct.cfg_opt_t')
+    for p in ex.explore(dup):
+        if p.end != 'ret' or p.retval in (sym.C0, None):
+            continue
+        rawc = [e for e in p.events if e.kind == 'call' and (e.name or '').startswith('llvm.memcpy') and sym.root_of(e.args[0])[0] == 'call' and sym.root_of(e.args[1])[0] == 'p']
+        if any(e.args[0][0] != 'fld' for e in rawc):
+            continue          # whole records are copied raw: nothing can be left out
+        byent = {}
+        for e in rawc:
+            ent = e.args[0]
+            while ent[0] == 'fld':
+                ent = ent[1]
+            byent.setdefault(ent, set()).add(full_member_name(e.args[0]))
+        for e in p.events:
+            if e.kind == 'store' and e.addr[0] == 'fld' and sym.root_of(e.addr)[0] == 'call':
+                ent = e.addr
+                while ent[0] == 'fld':
+                    ent = ent[1]
+                byent.setdefault(ent, set()).add(full_member_name(e.addr))
+        for ent, got in byent.items():
+            if len(got) < 3:
+                continue          # the end marker / a cleared slot
+            for m in allm:
+                if m in ('nvalues', 'values'):
+                    continue      # per-instance state, empty in a declaration
+                if m in L or any(m == o or m.startswith(o + '.') or o.startswith(m + '.') for o in got):
+                    continue
+                dropped.add(m)
+    for m in sorted(dropped):
+        chk.fail('R16.1', 'member-dropped:%s' % m, c.where(dup), 'the duplicator builds the copy member by member and leaves out "%s": every context and every section instance '
+                 'made from the copy has lost what the declaration said there (e.g. a callback registered on the template)' % m)
     D = set(m for m, v in verdict.items() if v == {''} or v == {'', ''})
     filled = dict((m, {m}) for m in D)
     cleared = set(D)
@@ -163,6 +197,8 @@ def run(c, chk):
     chk.rule('R16.4', 'a schema change made by path (callback registration) reaches the section template that later instances are copied from, not the private copy of one instance')
     c14.walker_template(c, c08.chk_proxy(chk, {'R14.7': 'R16.4'}), ex)
 
+    defaults_for_every_context(c, chk, ex)
+
     # ---- R16.3 ---------------------------------------------------------------------------
     for fname, pname, allowed in (('cfg_init', 'opts', {'cfg_dupopt_array'}),
                                   ('cfg_dupopt_array', 'opts', {'cfg_numopts', 'llvm.memcpy.p0i8.p0i8.i64', 'strdup', 'cfg_dupopt_array', 'llvm.dbg.value'})):
@@ -175,6 +211,31 @@ def run(c, chk):
             chk.fail('R16.3', 'decl-escapes:%s' % fname, c.where(esc), '%s() lets the caller\'s declaration array escape (stored or passed on)' % fname)
         else:
             chk.ok('R16.3', '%s(%s)' % (fname, pname), 'only read and handed to %s' % sorted(x for x in allowed if not x.startswith('llvm')))
+
+
+def all_members(mod, sty, prefix=''):
+    out = []
+    ftys = mod.structs.get(sty)
+    names = mod.struct_fields.get(sty)
+    if ftys is None or names is None:
+        return out
+    for ty, nm in zip(ftys, names):
+        ty = ty.strip()
+        if (ty.startswith('%struct.') or ty.startswith('%union.')) and not ty.endswith('*') and ty.startswith('%struct.'):
+            out.extend(all_members(mod, ty, prefix + nm + '.'))
+        else:
+            out.append(prefix + nm)
+    return out
+
+
+def full_member_name(addr):
+    parts = []
+    a = addr
+    while a[0] == 'fld':
+        parts.append(a[3])
+        a = a[1]
+    parts.reverse()
+    return '.'.join(parts)
 
 
 def member_name(addr):
@@ -346,3 +407,36 @@ def whole_array_copy_protected(c, chk, rid, L):
                          % (f.name, x.callee_name(), sorted(short)))
                 return
         chk.ok(rid, '%s: raw array copy' % f.name, 'a loop clearing %s of every entry is left before the first allocation that can fail' % sorted(short), sample=True)
+
+
+def defaults_for_every_context(c, chk, ex):
+    """R16.5: every context - also every section instance created later, whatever its flags - gets the defaults of its
+    own option table: cfg_init_defaults() returns only after its walk over the table has reached the end marker"""
+    chk.rule('R16.5', 'cfg_init_defaults() leaves only when its walk over the option table reached the end (no early exit that skips the defaults of some contexts)')
+    fn = c.need('cfg_init_defaults')
+    n = 0
+    bad = None
+    for p in ex.explore(fn):
+        if p.end != 'ret':
+            continue
+        n += 1
+        ended = False
+        for cn, t, _ in p.assume:
+            na = None
+            if cn[0] == 'icmp' and cn[1] in ('eq', 'ne') and cn[3] == sym.C0:
+                isnull = (cn[1] == 'eq') == t
+                v = cn[2]
+                # cfg->opts == NULL, or the name of the entry the walk stands on is NULL: the end marker
+                if isnull and v[0] == 'ld' and v[1][0] == 'fld' and v[1][3] == 'opts' and v[1][1] == ('p', 'cfg'):
+                    ended = True
+                if isnull and v[0] == 'ld' and v[1][0] == 'fld' and v[1][3] == 'name' and sym.mentions(v[1][1], lambda x: x[0] == 'fld' and x[3] == 'opts'):
+                    ended = True
+        if not ended:
+            bad = bad or p
+    if bad is not None:
+        conds = ' && '.join(('' if t else '!') + sym.render(cn) for cn, t, _ in bad.assume[-3:])
+        chk.fail('R16.5', 'defaults-skipped', c.where(fn), 'cfg_init_defaults() can return without having walked the option table to its end (%s): '
+                 'contexts and section instances for which that holds never get their declared defaults and pre-created sections' % (conds or 'unconditionally'))
+    elif n:
+        chk.ok('R16.5', 'cfg_init_defaults: %d returning paths' % n, 'each ends at the end marker of the table (or the table is NULL)', sample=True)
+    chk.floor('R16.5 returning paths of cfg_init_defaults', n, 2)
